@@ -38,6 +38,12 @@ def gen_session(rng, n_ops, finding_stream=False):
     sh = tsgen.Shadow()
     expect = {}  # op index -> expected outcome
     kind = None if finding_stream else rng.choice([None, None] + tsderive.KINDS)
+    if kind == "merge-reparent-again":
+        # the shape this derivation is about: a type without namespace with a subtype, and a packaged type of the same short name
+        for (n_, s_) in (("Base", "uima.tcas.Annotation"), ("x.Base", "uima.tcas.Annotation"), ("p.Kid", "Base"), ("p.Kid2", "p.Kid")):
+            i = len(sb.ops)
+            sb.create_type(ts, n_, s_)
+            expect[i] = sh.create_type(n_, s_)
     for _ in range(n_ops):
         r = rng.random()
         if r < 0.72:
